@@ -113,6 +113,7 @@ type Router struct {
 	Latency  time.Duration
 	Faults   FaultMap
 	log      []Event
+	full     []Event // every datagram since the router was created (StartPhase does not restart it)
 	count    [2]int
 	lastAt   [2]time.Time
 	start    time.Time
@@ -203,6 +204,7 @@ func (r *Router) SendPacket(p simnet.Packet) error {
 	if !r.frozen {
 		r.log = append(r.log, ev)
 	}
+	r.full = append(r.full, ev)
 	hook := r.OnSend
 	r.mu.Unlock()
 	if hook != nil {
@@ -257,6 +259,7 @@ func (r *Router) Inject(from, to net.Addr, data []byte, extra time.Duration) {
 	if !r.frozen {
 		r.log = append(r.log, Event{Dir: dir, Idx: -1, T: time.Since(r.start), Data: p.Data, Injected: true, From: from, To: to})
 	}
+	r.full = append(r.full, Event{Dir: dir, Idx: -1, T: time.Since(r.start), Data: p.Data, Injected: true, From: from, To: to})
 	r.mu.Unlock()
 	r.deliver(dir, p, extra, false)
 }
@@ -280,6 +283,14 @@ func (r *Router) Log() []Event {
 	r.mu.Lock()
 	defer r.mu.Unlock()
 	return append([]Event(nil), r.log...)
+}
+
+// FullLog returns every datagram seen since the router was created, across phases (for the
+// passive wire monitor).
+func (r *Router) FullLog() []Event {
+	r.mu.Lock()
+	defer r.mu.Unlock()
+	return append([]Event(nil), r.full...)
 }
 
 // Count returns how many datagrams were sent in a direction so far.
